@@ -45,6 +45,7 @@ def run(ctx, rep):
     rep.rule("R13.6", "correlation is atomic: single next() for sequence numbers, single dict.pop for callback lookup, "
                       "registration before transmission")
     rep.rule("R13.7", "the background server only goes through serve() and stop() joins its thread")
+    rep.rule("R13.8", "requests issued concurrently are all transmitted: send-layer hand-off discipline (= R12.1-R12.5)")
     rep.assume("schedules are not enumerated: only the lock/condition/publication discipline is decided",
                "Lock.release / Condition.notify_all do not raise when used as checked by R13.1/R13.4",
                "the documented caveat of serve_threaded (nested sync requests) is out of scope")
@@ -258,3 +259,6 @@ def run(ctx, rep):
     rep.ob("R13.7", "BgServingThread.stop clears the flag and then joins the thread", oko,
            "self._active = False dominates self._thread.join()" if oko else
            "stop() does not (first clear the flag and then) join the serving thread", fst.loc)
+
+    # ---- R13.8
+    K.share(ctx, rep, "c12", lambda o: o.rule in ("R12.1", "R12.2", "R12.3", "R12.5"), "R13.8", floor=8)
